@@ -664,7 +664,7 @@ fn text_token(r: &mut Rng, len: usize) -> String {
     }
     format!("T{}", tok_bytes(&b))
 }
-/// blob of `len` bytes: invalid UTF-8 unless `utf8` (then it is valid UTF-8: finding class 1 above the threshold)
+/// blob of `len` bytes: invalid UTF-8 unless `utf8`
 fn blob_token(r: &mut Rng, len: usize, utf8: bool) -> String {
     if len == 0 { return "B-".into(); }
     if utf8 {
@@ -776,7 +776,8 @@ fn histories(rng: &mut Rng, thorough: bool) -> Vec<(String, &'static str)> {
                     let small = var_token(rng, blob, 3);
                     let pre = if p == 'S' && rng.chance(1, 2) { format!("IS:0={} ", small) } else { String::new() };   // keys ascending: see the note on PRIMARY KEY tables
                     out.push((format!("{}{}I{}:1={} Q{} X Q{}", hdr(ty, wal, rng.chance(1, 4)), pre, p, v, rng.below(3), rng.below(3)), if blob { "blob_insert" } else { "text_insert" }));
-                    // update of a small value to this one, then to another size, then back
+                    // update of a small value to this one, then to another size, then back (quick tier: one path per size)
+                    if !thorough && ['L', 'P', 'S'][(size + blob as usize) % 3] != p { continue; }
                     let sz2 = *rng.pick(&SIZES);
                     let v2 = var_token(rng, blob, sz2);
                     let v3 = var_token(rng, blob, size);
@@ -805,7 +806,7 @@ fn histories(rng: &mut Rng, thorough: bool) -> Vec<(String, &'static str)> {
         else { out.push((format!("{}I{}:1={} Q0 X Q2", hdr(ty, rng.chance(1, 2), false), p, v), "huge")); }
     }
 
-    // ---- finding class 1: blobs that are valid UTF-8 (above and below the threshold)
+    // ---- blobs that are valid UTF-8, above and below the threshold (the repaired class 1: they stay BLOBs)
     let n1 = if thorough { 60 } else { 12 };
     for i in 0..n1 {
         let size = *rng.pick(&[5usize, 999, 1000, 1001, 1001, 1500, 4000, 4001, 9000]);
@@ -815,30 +816,50 @@ fn histories(rng: &mut Rng, thorough: bool) -> Vec<(String, &'static str)> {
         else { out.push((format!("{}IL:1=B00 U{}:1={} Q0 X Q{}", hdr("BLOB", false, false), p, v, rng.below(3)), "blob_utf8")); }
     }
 
-    // ---- finding class 2: 17-byte blobs led by 0xFE (size field small: error / empty / foreign chunks; huge: abort, panic)
+    // ---- 17-byte blobs led by 0xFE.  On the ordinary paths they are stored out of line since 170f3f6 and must read
+    // back unchanged whatever their size / chunk-id fields say (the repaired class 2) ...
     let ptr = |size: u64, cid: u64| { let mut b = vec![0xFEu8]; b.extend_from_slice(&size.to_le_bytes()); b.extend_from_slice(&cid.to_le_bytes()); format!("B{}", hex(&b)) };
     let real = |rid: u64| (1u64 << 48) | rid;
-    let mut fakes: Vec<String> = vec![
+    let mut likes: Vec<String> = vec![
         format!("IL:1={} Q0 X Q0", ptr(0, 0x0101010101010101)),
         format!("IP:1={} Q1", ptr(5, 0x0101010101010101)),
-        format!("IL:1=Br1500x61+ff IL:2={} Q0 X Q2", ptr(7, real(1))),              // reads the first 7 bytes of row 1's chunks
-        format!("IL:1=Br5000x62+ff IS:2={} Q0", ptr(4500, real(1))),
-        format!("IL:1=Br1200x63 IL:2={} Q0", ptr(1200, real(1))),
-        format!("IL:1=B00 UL:1={} Q0 UL:1=B01 Q0", ptr(3, real(9))),
-        format!("IL:1={} Q0", ptr(0x0101010101010101, 0x0101010101010101)),          // allocation failure: abort
-        format!("IP:1=B00 IP:2={} Q2", ptr(1u64 << 63, 1)),                           // capacity overflow: panic
-        format!("IL:1={} Q0", ptr(u64::MAX, u64::MAX)),
+        format!("IL:1=Br1500x61+ff IL:2={} Q0 X Q2", ptr(7, real(1))),
+        format!("IL:1=Br5000x62+ff IS:2={} Q0 D:1 Q0", ptr(4500, real(1))),
+        format!("IL:1=Br1200x63 IL:2={} Q0 UL:2=B00 Q0 X Q0", ptr(1200, real(1))),
+        format!("IL:1=B00 UL:1={} Q0 UP:1={} Q0 UL:1=B01 Q0", ptr(3, real(9)), ptr(0, real(1))),
+        format!("IL:1={} Q0 X Q0", ptr(0x0101010101010101, 0x0101010101010101)),
+        format!("IP:1=B00 IP:2={} Q2 UL:2=Br1001xff Q0", ptr(1u64 << 63, 1)),
+        format!("IL:1={} UL:1={} Q0 D:1 Q0", ptr(u64::MAX, u64::MAX), ptr(u64::MAX, real(1))),
     ];
     if thorough {
-        for _ in 0..20 {
-            let size = *rng.pick(&[0u64, 1, 17, 999, 1001, 4000, 4001, 8001]);
+        for _ in 0..30 {
+            let size = *rng.pick(&[0u64, 1, 17, 999, 1001, 4000, 4001, 8001, 1 << 40, 1 << 62, u64::MAX]);
             let cid = if rng.chance(1, 2) { real(rng.below(3) + 1) } else { rng.next() };
-            fakes.push(format!("I{}:1={} I{}:2={} I{}:3={} Q{}", pick_path(rng), blob_token(rng, 1100, false), pick_path(rng), blob_token(rng, 4100, false), pick_path(rng), ptr(size, cid), rng.below(3)));
+            let p3 = *rng.pick(&['L', 'P']);
+            likes.push(format!("I{}:1={} I{}:2={} I{}:3={} Q{} U{}:1={} Q0 X Q0", pick_path(rng), blob_token(rng, 1100, false), pick_path(rng), blob_token(rng, 4100, false), p3, ptr(size, cid), rng.below(3), *rng.pick(&['L', 'P']), ptr(size, cid)));
         }
     }
-    for f in fakes { out.push((hdr("BLOB", false, false) + &f, "fake_pointer")); }
+    for f in likes { out.push((hdr("BLOB", rng.chance(1, 3), rng.chance(1, 4)) + &f, "pointer_like")); }
+    // ... but a re-executed prepared INSERT (insert_cached) still stores them inline: finding class 4 (size field small:
+    // error / empty blob / another row's bytes; huge: abort - run in a child process -, panic)
+    let mut fakes: Vec<String> = vec![
+        format!("IS:1=B00 IS:2={} Q0 X Q0", ptr(0, 0x0101010101010101)),
+        format!("IS:1=B00 IS:2={} Q1", ptr(5, 0x0101010101010101)),
+        format!("IL:1=Br1500x61+ff IS:2=B01 IS:3={} Q0 X Q2", ptr(7, real(1))),
+        format!("IS:1=B00 IS:2={} Q0", ptr(0x0101010101010101, 0x0101010101010101)),
+        format!("IS:1=B00 IS:2={} Q2", ptr(1u64 << 63, 1)),
+    ];
+    if thorough {
+        for _ in 0..12 {
+            let size = *rng.pick(&[0u64, 1, 17, 999, 1001, 4000, 4001, 8001]);
+            let cid = if rng.chance(1, 2) { real(rng.below(2) + 1) } else { rng.next() };
+            fakes.push(format!("I{}:1={} IS:2={} IS:3=B02 IS:4={} Q{} X Q0", *rng.pick(&['L', 'P']), blob_token(rng, 1100, false), blob_token(rng, 4100, false), ptr(size, cid), rng.below(3)));
+        }
+    }
+    for f in fakes { out.push((hdr("BLOB", false, false) + &f, "cached_pointer")); }
 
-    // ---- chunk-id collisions: UPDATE derives the chunk id from the primary-key value (0 without one), INSERT from the row counter
+    // ---- the repaired class 3: UPDATEs whose chunk id used to be taken (derived from the primary-key value, 0 without one);
+    // since 1b44555 every UPDATE toasts under the row's own row id and all of these succeed
     let big = |r: &mut Rng, blob: bool| { let sz = *r.pick(&[1001usize, 1500, 4001, 9000]); var_token(r, blob, sz) };
     let n3 = if thorough { 40 } else { 8 };
     for i in 0..n3 {
@@ -847,13 +868,13 @@ fn histories(rng: &mut Rng, thorough: bool) -> Vec<(String, &'static str)> {
         let (p1, p2) = (*rng.pick(&['L', 'P']), *rng.pick(&['L', 'P']));
         let s = var_token(rng, blob, 2);
         let line = match i % 4 {
-            // no primary key: two rows updated to big values share chunk id (col<<48)|0; the second row held a toasted value: lost
+            // no primary key: two rows updated to big values; the second row held a toasted value
             0 => format!("{}IL:1={} I{}:2={} U{}:1={} Q0 U{}:2={} Q0 X Q0", hdr(ty, rng.chance(1, 2), false), s, p1, big(rng, blob), p2, big(rng, blob), p1, big(rng, blob)),
-            // the same, but the second row held a small value: the UPDATE is rejected, nothing is lost
+            // the same, but the second row held a small value
             1 => format!("{}IL:1={} IL:2={} U{}:1={} Q0 U{}:2={} Q0 X Q0", hdr(ty, false, false), s, s, p1, big(rng, blob), p2, big(rng, blob)),
-            // primary key: the row with k=1 was inserted second (row id 2); its UPDATE writes under chunk id of row id 1 (k=5's)
+            // primary key: the row with k=1 was inserted second (row id 2)
             2 => format!("{}I{}:5={} I{}:1={} Q0 U{}:1={} Q0 X Q0", hdr(ty, rng.chance(1, 2), true), p1, big(rng, blob), p2, big(rng, blob), p1, big(rng, blob)),
-            // primary key equal to the row id: no collision, every UPDATE works
+            // primary key equal to the row id
             _ => format!("{}I{}:1={} I{}:2={} Q0 U{}:1={} U{}:2={} Q0 X Q0 D:1 UL:2={} Q0", hdr(ty, false, true), p1, big(rng, blob), p2, big(rng, blob), p1, big(rng, blob), p2, big(rng, blob), big(rng, blob)),
         };
         out.push((line, "collision"));
@@ -973,9 +994,8 @@ fn gen(a: &Args) {
     for (l, kind) in lines {
         if let Some(h) = parse_hist(&l) {
             let (jsonbs, terms, _) = observe(&h, "gen");
-            let known = h.ops.iter().any(|op| matches!(op, Op::Ins(_, _, v) | Op::Upd(_, _, v) if is_fake_ptr(v) || is_utf8_blob(v)));
             if nontrivial(&h) { n_big += 1; }
-            if known || kind == "collision" { n_known += 1; }
+            if kind == "cached_pointer" { n_known += 1; }
             if kind == "huge" && in_shard > 0 { w.flush(); in_shard = 0; }   // a shard of its own
             w.push(hist_term(&h, &jsonbs, &terms), show_hist(&h), nontrivial(&h), kind);
             // histories are the expensive cases for coqc: short shards, evaluated in parallel
@@ -1011,13 +1031,11 @@ fn search(a: &Args) {
         let obs = run_hist(&h, &jsonbs, &dir, &mut |_, _| {});
         let mut exp: std::collections::BTreeMap<i64, OwnedValue> = Default::default();
         let mut ok = true;
-        let mut lossy_symptom = false;
         for (i, (op, o)) in h.ops.iter().zip(obs.iter()).enumerate() {
             let jb = jsonbs.get(i).and_then(|x| x.as_ref());
             match (op, o) {
                 (Op::Ins(_, k, v), Obs::Wrote(true, _)) => { if let Some(e) = expected(v, jb) { exp.insert(*k, e); } }
                 (Op::Upd(_, k, v), Obs::Wrote(true, _)) => { if exp.contains_key(k) { if let Some(e) = expected(v, jb) { exp.insert(*k, e); } } }
-                (Op::Upd(_, k, v), Obs::Wrote(false, _)) => { if is_big(v) { if let Some(OwnedValue::Text(_) | OwnedValue::Blob(_)) = exp.get(k) { lossy_symptom = true; } } }
                 (Op::Del(k), Obs::Wrote(true, _)) => { exp.remove(k); }
                 (_, Obs::Wrote(false, _)) | (_, Obs::Skipped) | (Op::Reopen, Obs::Reopened(true)) => {}
                 (Op::Query(_), Obs::Rows(Ok(rows))) => {
@@ -1028,9 +1046,8 @@ fn search(a: &Args) {
             }
         }
         if !ok && fails.len() < 60 {
-            let class = if h.ops.iter().any(|op| matches!(op, Op::Ins(_, _, v) | Op::Upd(_, _, v) if is_fake_ptr(v))) { 2 }
-                        else if lossy_symptom { 3 }
-                        else if h.ops.iter().any(|op| matches!(op, Op::Ins(_, _, v) | Op::Upd(_, _, v) if is_utf8_blob(v))) { 1 } else { 0 };
+            // class 4: a pointer-like value written by the session's prepared INSERT (re-executed: insert_cached)
+            let class = if h.ops.iter().any(|op| matches!(op, Op::Ins('S', _, v) if is_fake_ptr(v))) { 4 } else { 0 };
             fails.push(format!("{} class={}", show_hist(&h), class));
         }
     }
